@@ -641,10 +641,10 @@ func (cs *ContractSet) ParseContractFile(path, pkgPath string) error {
 		case "at":
 			// at <callee> requires [label] expr : extra obligation at every call of <callee> in this function
 			parts := strings.Fields(rest)
-			if cur == nil || len(parts) < 3 || parts[1] != "requires" {
-				return fail(fmt.Errorf("at <callee> requires <expr>"))
+			if cur == nil || len(parts) < 3 || (parts[1] != "requires" && parts[1] != "assumes") {
+				return fail(fmt.Errorf("at <callee> requires|assumes <expr>"))
 			}
-			src := strings.TrimSpace(rest[strings.Index(rest, "requires")+len("requires"):])
+			src := strings.TrimSpace(rest[strings.Index(rest, parts[1])+len(parts[1]):])
 			label, src := splitLabel(src)
 			e, err := ParseCExpr(src)
 			if err != nil {
@@ -653,7 +653,7 @@ func (cs *ContractSet) ParseContractFile(path, pkgPath string) error {
 			if cur.CallAsserts == nil {
 				cur.CallAsserts = map[string][]*Clause{}
 			}
-			cur.CallAsserts[parts[0]] = append(cur.CallAsserts[parts[0]], &Clause{Kind: "requires", Label: label, Src: src, Expr: e, File: path, Line: rl.line})
+			cur.CallAsserts[parts[0]] = append(cur.CallAsserts[parts[0]], &Clause{Kind: parts[1], Label: label, Src: src, Expr: e, File: path, Line: rl.line})
 		case "calls":
 			// calls <param> as <extern contract name>
 			parts := strings.Fields(rest)
